@@ -896,8 +896,7 @@ def r12_17(ctx):
     return r
 
 
-# R12_18_PENDING: set to True together with the /repo repair findings/pending/fix_c12_oversized_label.diff
-R12_18_STRICT = False
+R12_18_STRICT = True
 
 
 def r12_18(ctx):
